@@ -59,3 +59,26 @@ Proof. apply url_escape_keeps_triple, real_url_tables_ok. Qed.
 Theorem URLEscape_out v : all_bytes v ->
   UOut url_escape_table utf8len_table (URLEscapeRaw v) \/ (exists c, v = [c] /\ 128 <= c /\ URLEscapeRaw v = [c]).
 Proof. apply url_escape_out; [apply real_url_tables_ok | apply real_plus_safe]. Qed.
+
+(* ---- text-level HTML writers on the real tables ---- *)
+Require Import GM.model.HtmlWriter GM.proofs.HtmlWriterProofs GM.gen.Entities.
+
+Lemma real_entities_bytes : Forall (fun e => Forall (fun c => c < 256) (snd e)) entities.
+Proof.
+  assert (H : forallb (fun e => forallb (fun c => c <? 256) (snd e)) entities = true) by (vm_compute; reflexivity).
+  rewrite forallb_forall in H. apply Forall_forall. intros e He. specialize (H e He).
+  rewrite forallb_forall in H. apply Forall_forall. intros c Hc. specialize (H c Hc). apply N.ltb_lt. exact H.
+Qed.
+
+Theorem WriterWrite_out es v : all_bytes v -> EscOut (WriterWrite es v).
+Proof. apply (writer_write_out html_escape_table punct_table entities html_escape_table_std). Qed.
+Theorem RawWrite_out v : EscOut (RawWrite v).
+Proof. apply (raw_write_out html_escape_table html_escape_table_std). Qed.
+Theorem RenderAttributes_out filter attrs :
+  Forall (fun a => attr_name_ok (a_name a) = true) attrs -> AttrsOut (RenderAttributes filter attrs).
+Proof. apply (render_attributes_out html_escape_table html_escape_table_std). Qed.
+Theorem UrlValue_safe dest resolve : all_bytes dest -> browser_dangerous (UrlValue false dest resolve) = false.
+Proof.
+  apply (url_value_safe html_escape_table punct_table entities url_escape_table utf8len_table
+           html_escape_table_std real_url_tables_ok real_entities_bytes).
+Qed.
